@@ -237,7 +237,7 @@ def handleGen (op : String) (args : List String) : Option String :=
   | "gen.bootorder", [h] =>
     -- efivarfs.bootorder.Unmarshal on a buffer holding `h` (fuel as in C18g_unmarshal): the names, joined by ","
     let bs := unhex h
-    let r := efivarfs.bootorder.Unmarshal ((bs.length + 1) / 2 + 1) [] bs
+    let r := efivarfs.bootorder.Unmarshal (bs.length / 2 + 1) [] bs
     some (if r.2.2.isNone then ",".intercalate r.1 else "err")
   | "gen.padding", [n, blk] =>
     -- authenticode.PaddingBytes(srcLen, blockSize): padLen, and whether the slice is padLen zero bytes
